@@ -118,7 +118,7 @@ func validateGoCallableFunc(fn interface{}) error {
 
 	v := reflect.ValueOf(fn)
 
-	if v.Kind() != reflect.Func {
+	if v.Kind() != reflect.Func || v.IsNil() {
 		return fmt.Errorf("func must be a Go function")
 	}
 
@@ -232,7 +232,7 @@ func (c *goCallable) Call(argv []reflect.Value) (reflect.Value, error) {
 
 	results := c.fn.Call(argv)
 
-	if len(results) == 2 && !results[1].IsNil() {
+	if len(results) == 2 && !isNilError(results[1]) {
 		err := results[1].Interface().(error)
 		if err == jtypes.ErrUndefined {
 			err = nil
@@ -241,6 +241,20 @@ func (c *goCallable) Call(argv []reflect.Value) (reflect.Value, error) {
 	}
 
 	return results[0], nil
+}
+
+// isNilError reports whether the error value returned by
+// a Go function is nil. The function's second return type
+// need not be the error interface: any type that implements
+// error is accepted, and values of types such as structs
+// are never nil.
+func isNilError(v reflect.Value) bool {
+	switch v.Kind() {
+	case reflect.Interface, reflect.Ptr, reflect.Map, reflect.Slice, reflect.Func, reflect.Chan:
+		return v.IsNil()
+	default:
+		return false
+	}
 }
 
 func (c *goCallable) validateArgCount(argv []reflect.Value) ([]reflect.Value, error) {
